@@ -204,6 +204,16 @@ def r07_6(ctx: Ctx) -> None:
         for name, node in sorted(indexed.items()):
             srcs = [v for v in bound_from(func, name) if "get_cds_features_within_location" in txt(v)]
             if not srcs:
+                # the genes of a location re-derived by filtering the record's coordinate-sorted gene list
+                filtered = [v for v in bound_from(func, name) if isinstance(v, (ast.ListComp, ast.GeneratorExp, ast.Call))
+                            and ("is_contained_by" in txt(v) or "location_contains_other" in txt(v))]
+                if filtered:
+                    count += 1
+                    ctx.ob("R07.6", CP, node, qual, f"edge genes from {name}", False,
+                           "the first/last gene of a core are taken from the lookup result in its own cyclic order; a filter over "
+                           "the record's gene list is in plain coordinate order, so for a core spanning the origin its first and "
+                           "last elements are the two genes next to the origin, not the core's edge genes",
+                           detail=f"`{name}` = {txt(filtered[0])[:80]}", form=f"{name} = {txt(filtered[0])[:80]}")
                 continue
             count += 1
             direct = all(isinstance(v, ast.Call) and last_attr(v) == "get_cds_features_within_location" for v in srcs)
